@@ -45,6 +45,10 @@ func c03Gen(seed uint64, run int, tier string) *Case {
 		c03VersionGen(r, c)
 		return c
 	}
+	if run%16 == 5 {
+		c03SameFidGen(r, c)
+		return c
+	}
 	twice := run%4 == 3
 	cancels := run%4 == 2
 	c.Stratum = "single-answer"
@@ -113,6 +117,10 @@ func c03Gen(seed uint64, run int, tier string) *Case {
 func c03Exec(x *Ctx) {
 	if x.C.cfg("midversion") != 0 {
 		c03Version(x)
+		return
+	}
+	if x.C.cfg("samefid") != 0 {
+		c03SameFid(x)
 		return
 	}
 	if x.C.cfg("seconderr") != 0 {
